@@ -414,11 +414,24 @@ type sevCase struct {
 	Blocks      [][]byte
 	MeasShape   string // base measurement derived from the endorsed one: "prefix47", "bitflip", "extended"
 	KeyShape    string // base trusted key lists already containing the bundle's blocks
+	Entry       string // "" = gcetcbendorsement.SevPolicy, "cli" = the `sev policy` command
+	Spell       uint8  // CLI only: how the flags are spelled (bit 0: --overwrite=true, bit 1: explicit =false, bit 2: flags before the sub-command)
+	Step        string // sequence checks: position and base kind of this derivation ("" = single call)
 
 	replayName string // non-empty: save a JSON replay before reporting (enumerated checks)
 }
 
+// entryKey gives violations seen through the command line their own root-cause keys: the same
+// symptom there can come from the flag wiring rather than from the derivation.
+func entryKey(entry, key string) string {
+	if entry == "cli" {
+		return strings.Replace(key, "C17/", "C17/cli-", 1)
+	}
+	return key
+}
+
 func (c *sevCase) violate(tb ev.TB, key, format string, args ...any) bool {
+	key = entryKey(c.Entry, key)
 	if c.replayName != "" && !ev.IsKnown(key) {
 		ev.SaveReplay("C17", c.replayName, c)
 	}
@@ -434,7 +447,14 @@ func (c *sevCase) describe() string {
 		proto.Unmarshal(c.Base, b)
 		base = "{" + fmt.Sprint(b) + "}"
 	}
-	return fmt.Sprintf("SevPolicyOptions{LaunchVmsas:%d Overwrite:%v AllowUnspecifiedVmsas:%v Base:%s} sev_snp={%v} bundle=%s", c.Launch, c.Overwrite, c.AllowUnspec, base, g.GetSevSnp(), c.BundleClass)
+	pre := ""
+	if c.Entry == "cli" {
+		pre = "[" + strings.Join(sevCLIArgs(c), " ") + "] "
+	}
+	if c.Step != "" {
+		pre += "[" + c.Step + "] "
+	}
+	return fmt.Sprintf("%sSevPolicyOptions{LaunchVmsas:%d Overwrite:%v AllowUnspecifiedVmsas:%v Base:%s} sev_snp={%v} bundle=%s", pre, c.Launch, c.Overwrite, c.AllowUnspec, base, g.GetSevSnp(), c.BundleClass)
 }
 
 func safeSev(e *epb.VMLaunchEndorsement, o *gcetcbendorsement.SevPolicyOptions) (res *cpb.Policy, err error, pan any) {
@@ -455,7 +475,11 @@ type outcome struct {
 	extra      []string
 }
 
-var sevTouched = []protoreflect.Name{"policy", "measurement", "minimum_guest_svn", "trusted_id_keys", "trusted_author_keys"}
+// sevPlaced are the fields of check.Policy that the statement lets the derivation write: "the
+// measurement, guest policy and trusted identity/author keys placed in the result are exactly those
+// of the endorsement". Every other field - minimum_guest_svn included, which the derivation only
+// reads - has to come out as it went in (for a nil base: as in the documented default).
+var sevPlaced = []protoreflect.Name{"policy", "measurement", "trusted_id_keys", "trusted_author_keys"}
 
 func clearFields(m protoreflect.Message, names []protoreflect.Name) {
 	for _, n := range names {
@@ -463,19 +487,97 @@ func clearFields(m protoreflect.Message, names []protoreflect.Name) {
 	}
 }
 
-// checkSev runs SevPolicy on the case and applies the C17 oracle.
-func checkSev(tb ev.TB, c *sevCase) outcome {
-	golden := &epb.VMGoldenMeasurement{}
-	if err := proto.Unmarshal(c.Golden, golden); err != nil {
-		tb.Fatalf("harness: golden does not unmarshal: %v", err)
+func inList(l [][]byte, x []byte) bool {
+	for _, e := range l {
+		if bytes.Equal(e, x) {
+			return true
+		}
 	}
-	sev := golden.GetSevSnp() // nil-safe getters below
-	var base, snap *cpb.Policy
+	return false
+}
+
+// keysOK: the result's trusted key list holds every key of the base, every key the endorsement
+// contributes, nothing else, and no more entries than base + endorsement. The statement fixes which
+// keys are trusted, not their order, and an implementation may skip a key the base already trusts.
+func keysOK(res, base, want [][]byte) bool {
+	if len(res) > len(base)+len(want) {
+		return false
+	}
+	for _, k := range base {
+		if !inList(res, k) {
+			return false
+		}
+	}
+	for _, k := range want {
+		if !inList(res, k) {
+			return false
+		}
+	}
+	for _, k := range res {
+		if !inList(base, k) && !inList(want, k) {
+			return false
+		}
+	}
+	return true
+}
+
+// usedBlocks is the number of harness DER payloads that went into the bundle of the class.
+func usedBlocks(class string) int {
+	switch class {
+	case bOne, bOneTail:
+		return 1
+	case bTwo, bWrongFirst, bWrongSecond:
+		return 2
+	case bThree:
+		return 3
+	}
+	return 0
+}
+
+// oddSevInput: the endorsement carries a value of a size no real endorsement has (a measurement that
+// is not 48 bytes, a certificate block without content). The statement does not say that such an
+// endorsement must be usable, so a derivation that refuses it is not judged; one that succeeds is
+// judged like any other.
+func oddSevInput(c *sevCase, sev *epb.VMSevSnp) bool {
+	for _, m := range sev.GetMeasurements() { // any-quantifier: independent of the iteration order
+		if len(m) != 48 {
+			return true
+		}
+	}
+	for i := 0; i < usedBlocks(c.BundleClass) && i < len(c.Blocks); i++ {
+		if len(c.Blocks[i]) == 0 {
+			return true
+		}
+	}
+	return false
+}
+
+// checkSev runs the derivation on the case and applies the C17 oracle.
+func checkSev(tb ev.TB, c *sevCase) outcome {
+	var base *cpb.Policy
 	if !c.BaseNil {
 		base = &cpb.Policy{}
 		if err := proto.Unmarshal(c.Base, base); err != nil {
 			tb.Fatalf("harness: base does not unmarshal: %v", err)
 		}
+	}
+	o, _ := judgeSev(tb, c, base, false)
+	return o
+}
+
+// judgeSev derives a policy from base (the Go object the caller holds; nil = no base) through the
+// entry point the case names and applies the oracle. With keep the returned policy is handed back
+// untouched (the sequence checks look at it again later); otherwise it is scrambled to detect memory
+// shared with the base.
+func judgeSev(tb ev.TB, c *sevCase, base *cpb.Policy, keep bool) (outcome, *cpb.Policy) {
+	golden := &epb.VMGoldenMeasurement{}
+	if err := proto.Unmarshal(c.Golden, golden); err != nil {
+		tb.Fatalf("harness: golden does not unmarshal: %v", err)
+	}
+	sev := golden.GetSevSnp() // nil-safe getters below
+	baseNil := base == nil
+	var snap *cpb.Policy
+	if !baseNil {
 		snap = proto.Clone(base).(*cpb.Policy)
 	}
 	eff := snap // the values the derivation starts from
@@ -485,11 +587,12 @@ func checkSev(tb ev.TB, c *sevCase) outcome {
 	table := sev.GetMeasurements()
 	want, listed := table[c.Launch]
 	ow := c.Overwrite
+	odd := oddSevInput(c, sev)
 
 	// ---- model (classification, and which errors the property tolerates / demands)
 	var conflicts []string
 	other := ""
-	if !ow && !c.BaseNil {
+	if !ow && !baseNil {
 		if eff.GetPolicy() != 0 && eff.GetPolicy() != sev.GetPolicy() {
 			conflicts = append(conflicts, "policy")
 		}
@@ -504,7 +607,7 @@ func checkSev(tb ev.TB, c *sevCase) outcome {
 	switch {
 	case sev == nil:
 		other = "no-sev"
-	case c.BaseNil && !ow && defaultSevPolicy != sev.GetPolicy():
+	case baseNil && !ow && defaultSevPolicy != sev.GetPolicy():
 		other = "nilbase-default-policy"
 	case c.Launch == 0 && !c.AllowUnspec:
 		other = "launch0"
@@ -521,7 +624,7 @@ func checkSev(tb ev.TB, c *sevCase) outcome {
 	case !listed:
 		launchKind = "unlisted"
 	}
-	guarded := !c.BaseNil && (eff.GetPolicy() != 0 || len(eff.GetMeasurement()) != 0 || eff.GetMinimumGuestSvn() != 0)
+	guarded := !baseNil && (eff.GetPolicy() != 0 || len(eff.GetMeasurement()) != 0 || eff.GetMinimumGuestSvn() != 0)
 	out := outcome{nontrivial: guarded}
 	mask := "nil"
 	if base != nil {
@@ -529,6 +632,9 @@ func checkSev(tb ev.TB, c *sevCase) outcome {
 	}
 	finish := func(class string, ok bool) outcome {
 		out.class, out.ok = class, ok
+		// a guarded field is judged when the derivation succeeds or fails because of it; an error for
+		// another reason (malformed bundle, unlisted count, …) only shows that the base was left alone
+		out.nontrivial = guarded && (ok || strings.HasPrefix(class, "err/conflict:"))
 		out.canon = fmt.Sprintf("%s|%s|ow=%v,allow=%v,launch=%s,bundle=%s", mask, class, ow, c.AllowUnspec, launchKind, c.BundleClass)
 		res := "err"
 		if ok {
@@ -541,116 +647,159 @@ func checkSev(tb ev.TB, c *sevCase) outcome {
 		if c.KeyShape != "" {
 			out.extra = append(out.extra, "basekeys="+c.KeyShape+":"+res)
 		}
+		// which guarded fields the oracle could judge in this case
+		svn := "unset"
+		switch {
+		case baseNil:
+			svn = "nilbase"
+		case eff.GetMinimumGuestSvn() != 0:
+			svn = "set"
+		}
+		out.extra = append(out.extra, fmt.Sprintf("minsvn=%s/ow=%v:%s", svn, ow, res))
+		if listed && c.Launch != 0 && len(want) != 48 {
+			out.extra = append(out.extra, fmt.Sprintf("endorsed-measurement-len=%d:%s", len(want), res))
+		}
 		return out
 	}
 
-	opts := &gcetcbendorsement.SevPolicyOptions{Base: base, LaunchVmsas: c.Launch, Overwrite: ow, AllowUnspecifiedVmsas: c.AllowUnspec}
-	end := &epb.VMLaunchEndorsement{SerializedUefiGolden: clone(c.Golden), Signature: []byte("unverified")}
-	res, err, pan := safeSev(end, opts)
+	var res *cpb.Policy
+	var err error
+	var pan any
+	if c.Entry == "cli" {
+		res, err, pan = runSevCLI(tb, c)
+	} else {
+		opts := &gcetcbendorsement.SevPolicyOptions{Base: base, LaunchVmsas: c.Launch, Overwrite: ow, AllowUnspecifiedVmsas: c.AllowUnspec}
+		before := *opts
+		end := &epb.VMLaunchEndorsement{SerializedUefiGolden: clone(c.Golden), Signature: []byte("unverified")}
+		res, err, pan = safeSev(end, opts)
+		if pan == nil && (opts.Base != before.Base || opts.Overwrite != before.Overwrite) {
+			// the options carry the caller's base and overwrite permission for the caller's next derivation
+			c.violate(tb, "C17/sev-options-changed", "SevPolicy edited the caller's options: Base %p -> %p, Overwrite %v -> %v", before.Base, opts.Base, before.Overwrite, opts.Overwrite)
+			return finish("known-finding", false), nil
+		}
+		if pan == nil && *opts != before {
+			ev.Note("C17: SevPolicy edited LaunchVmsas/AllowUnspecifiedVmsas in the caller's options (not judged: the statement speaks about the base policy and the overwrite permission)")
+		}
+	}
 	if pan != nil {
 		c.violate(tb, "C17/sev-panic", "SevPolicy panicked: %v", pan)
-		return finish("known-finding", false)
+		return finish("known-finding", false), nil
 	}
 
 	// (1) the caller's base policy is unchanged, whatever the outcome
-	if opts.Base != base || (base != nil && !proto.Equal(base, snap)) {
+	if base != nil && !proto.Equal(base, snap) {
 		c.violate(tb, "C17/sev-base-mutated", "base policy changed by SevPolicy (err=%v): fields %s differ from the snapshot taken before the call", err, diffFields(snap.ProtoReflect(), base.ProtoReflect()))
-		return finish("known-finding", false)
+		return finish("known-finding", false), nil
 	}
 
 	if err != nil {
 		if len(conflicts) == 0 && other == "" {
+			if odd {
+				return finish("err/tolerated:odd-sized-input", false), nil
+			}
 			key := "C17/sev-spurious-error"
 			if ow {
 				key = "C17/sev-error-despite-overwrite"
 			}
 			c.violate(tb, key, "SevPolicy failed although no base value conflicts with the endorsement and the inputs are well-formed: %v", err)
-			return finish("known-finding", false)
+			return finish("known-finding", false), nil
 		}
 		if len(conflicts) > 0 {
-			return finish("err/conflict:"+strings.Join(conflicts, "+"), false)
+			return finish("err/conflict:"+strings.Join(conflicts, "+"), false), nil
 		}
-		return finish("err/"+other, false)
+		return finish("err/"+other, false), nil
 	}
 
 	// ---- success
 	if res == nil {
 		c.violate(tb, "C17/sev-nil-result", "SevPolicy returned neither a policy nor an error")
-		return finish("known-finding", false)
+		return finish("known-finding", false), nil
 	}
 	if base != nil && res == base {
 		c.violate(tb, "C17/sev-result-is-base", "SevPolicy returned the caller's base policy object instead of a new policy")
-		return finish("known-finding", false)
+		return finish("known-finding", false), nil
 	}
 	// (2) without overwrite every value set in the base survives
-	if !ow && !c.BaseNil {
+	if !ow && !baseNil {
 		if eff.GetPolicy() != 0 && res.GetPolicy() != eff.GetPolicy() {
 			c.violate(tb, "C17/sev-guest-policy-overwritten", "no overwrite: base guest policy %#x replaced by %#x without an error", eff.GetPolicy(), res.GetPolicy())
-			return finish("known-finding", false)
+			return finish("known-finding", false), nil
 		}
 		if len(eff.GetMeasurement()) != 0 && !bytes.Equal(res.GetMeasurement(), eff.GetMeasurement()) {
 			c.violate(tb, "C17/sev-measurement-overwritten", "no overwrite: base measurement %s replaced by %s without an error", short(eff.GetMeasurement()), short(res.GetMeasurement()))
-			return finish("known-finding", false)
+			return finish("known-finding", false), nil
 		}
 		if eff.GetMinimumGuestSvn() != 0 && res.GetMinimumGuestSvn() != eff.GetMinimumGuestSvn() {
 			c.violate(tb, "C17/sev-min-svn-changed", "no overwrite: base minimum_guest_svn %d became %d without an error", eff.GetMinimumGuestSvn(), res.GetMinimumGuestSvn())
-			return finish("known-finding", false)
+			return finish("known-finding", false), nil
 		}
 		if eff.GetMinimumGuestSvn() != 0 && sev.GetSvn() < eff.GetMinimumGuestSvn() {
 			ev.Note("C17: the statement only says the minimum-guest-SVN constraint must survive or the derivation must fail; following the code comment in modifyPolicy ('Minimum in a base policy is allowed to be less than or equal to the endorsed SVN if non-zero') and the repo test 'svn conflict', a base minimum above the endorsed SVN is treated as a documented conflict that must fail without overwrite")
 			c.violate(tb, "C17/sev-min-svn-conflict-accepted", "no overwrite: base minimum_guest_svn %d exceeds the endorsed svn %d but the derivation succeeded", eff.GetMinimumGuestSvn(), sev.GetSvn())
-			return finish("known-finding", false)
+			return finish("known-finding", false), nil
 		}
+	}
+	// (2b) minimum_guest_svn is not among the values the statement lets the derivation place (the
+	// repository: "the GUEST_SVN is not set by GCE due to not using an IDBLOCK", and its test 'svn
+	// overwrite' keeps the base's value): it is carried over with and without overwrite, set or unset,
+	// and stays unset for a nil base.
+	if res.GetMinimumGuestSvn() != eff.GetMinimumGuestSvn() {
+		c.violate(tb, "C17/sev-min-svn-changed", "minimum_guest_svn %d (base nil=%v, overwrite=%v) became %d; endorsed svn %d", eff.GetMinimumGuestSvn(), baseNil, ow, res.GetMinimumGuestSvn(), sev.GetSvn())
+		return finish("known-finding", false), nil
 	}
 	// (3) values placed
 	if ow && eff.GetPolicy() != 0 {
 		// documented in modifyPolicy: "Allow the base policy to overwrite the signed policy if --overwrite is given"
 		if res.GetPolicy() != eff.GetPolicy() && res.GetPolicy() != sev.GetPolicy() {
 			c.violate(tb, "C17/sev-guest-policy-wrong", "overwrite: result guest policy %#x is neither the base's %#x nor the endorsement's %#x", res.GetPolicy(), eff.GetPolicy(), sev.GetPolicy())
-			return finish("known-finding", false)
+			return finish("known-finding", false), nil
 		}
 	} else if res.GetPolicy() != sev.GetPolicy() {
 		c.violate(tb, "C17/sev-guest-policy-wrong", "result guest policy %#x is not the endorsement's %#x (base %#x, overwrite=%v)", res.GetPolicy(), sev.GetPolicy(), eff.GetPolicy(), ow)
-		return finish("known-finding", false)
+		return finish("known-finding", false), nil
 	}
 	if c.Launch != 0 {
 		if !bytes.Equal(res.GetMeasurement(), want) {
 			c.violate(tb, "C17/sev-measurement-wrong", "result measurement %s is not measurements[%d]=%s", short(res.GetMeasurement()), c.Launch, short(want))
-			return finish("known-finding", false)
+			return finish("known-finding", false), nil
 		}
 	} else if !bytes.Equal(res.GetMeasurement(), eff.GetMeasurement()) {
 		c.violate(tb, "C17/sev-measurement-wrong", "launch_vmsas=0 (measurement disregarded) but result measurement %s differs from the base's %s", short(res.GetMeasurement()), short(eff.GetMeasurement()))
-		return finish("known-finding", false)
+		return finish("known-finding", false), nil
 	}
 	if c.BundleClass == bThree {
-		ev.Note("C17: endorsement.proto documents sev_snp.ca_bundle as 'PEM-encoded certs for Identity..Author..Root' while modifyPolicy rejects any third block ('ca bundle longer than expected'); the check does not demand either behaviour for three-block bundles, only that on success exactly block 1 / block 2 are appended")
+		ev.Note("C17: endorsement.proto documents sev_snp.ca_bundle as 'PEM-encoded certs for Identity..Author..Root' while modifyPolicy rejects any third block ('ca bundle longer than expected'); the check does not demand either behaviour for three-block bundles, only that on success exactly block 1 / block 2 are trusted")
 	}
-	wID := append(append([][]byte(nil), eff.GetTrustedIdKeys()...), wantID...)
-	wAu := append(append([][]byte(nil), eff.GetTrustedAuthorKeys()...), wantAuthor...)
-	if !bytesListEqual(res.GetTrustedIdKeys(), wID) {
-		c.violate(tb, "C17/sev-trusted-id-keys-wrong", "trusted_id_keys = %s, want base's followed by the DER of the identity block: %s", hexList(res.GetTrustedIdKeys()), hexList(wID))
-		return finish("known-finding", false)
+	if !keysOK(res.GetTrustedIdKeys(), eff.GetTrustedIdKeys(), wantID) {
+		c.violate(tb, "C17/sev-trusted-id-keys-wrong", "trusted_id_keys = %s, want the base's %s and the DER of the identity block %s, nothing else", hexList(res.GetTrustedIdKeys()), hexList(eff.GetTrustedIdKeys()), hexList(wantID))
+		return finish("known-finding", false), nil
 	}
-	if !bytesListEqual(res.GetTrustedAuthorKeys(), wAu) {
-		c.violate(tb, "C17/sev-trusted-author-keys-wrong", "trusted_author_keys = %s, want base's followed by the DER of the author block: %s", hexList(res.GetTrustedAuthorKeys()), hexList(wAu))
-		return finish("known-finding", false)
+	if !keysOK(res.GetTrustedAuthorKeys(), eff.GetTrustedAuthorKeys(), wantAuthor) {
+		c.violate(tb, "C17/sev-trusted-author-keys-wrong", "trusted_author_keys = %s, want the base's %s and the DER of the author block %s, nothing else", hexList(res.GetTrustedAuthorKeys()), hexList(eff.GetTrustedAuthorKeys()), hexList(wantAuthor))
+		return finish("known-finding", false), nil
 	}
-	// (4) everything else is carried over
-	if !c.BaseNil {
+	// (4) everything else is carried over (nil base: equals the documented default)
+	{
 		a, b := proto.Clone(res).(*cpb.Policy), proto.Clone(eff).(*cpb.Policy)
-		clearFields(a.ProtoReflect(), sevTouched)
-		clearFields(b.ProtoReflect(), sevTouched)
+		clearFields(a.ProtoReflect(), sevPlaced)
+		clearFields(b.ProtoReflect(), sevPlaced)
 		if !proto.Equal(a, b) {
-			c.violate(tb, "C17/sev-unrelated-field-changed", "fields unrelated to the endorsement differ between base and result: %s", diffFields(b.ProtoReflect(), a.ProtoReflect()))
-			return finish("known-finding", false)
+			if baseNil {
+				c.violate(tb, "C17/sev-nilbase-default-differs", "no base policy: fields %s of the result differ from the documented default {guest policy SMT|MigrateMA, minimum_version 0.0} beyond the values the endorsement supplies", diffFields(b.ProtoReflect(), a.ProtoReflect()))
+			} else {
+				c.violate(tb, "C17/sev-unrelated-field-changed", "fields unrelated to the endorsement differ between base and result: %s", diffFields(b.ProtoReflect(), a.ProtoReflect()))
+			}
+			return finish("known-finding", false), nil
 		}
 	}
 	// (1b) no aliasing: destroying the result leaves the base intact
-	if base != nil {
+	kept := res
+	if base != nil && !keep && c.Entry != "cli" {
+		kept = nil
 		scramble(res.ProtoReflect())
 		if !proto.Equal(base, snap) {
 			c.violate(tb, "C17/sev-result-aliases-base", "mutating the returned policy changed the caller's base policy (fields %s): the result shares memory with the base", diffFields(snap.ProtoReflect(), base.ProtoReflect()))
-			return finish("known-finding", false)
+			return finish("known-finding", false), nil
 		}
 	}
 	cls := "ok/noow"
@@ -658,14 +807,14 @@ func checkSev(tb ev.TB, c *sevCase) outcome {
 		cls = "ok/ow"
 	}
 	switch {
-	case c.BaseNil:
+	case baseNil:
 		cls += "/nilbase"
 	case guarded:
 		cls += "/guarded-set"
 	default:
 		cls += "/guarded-unset"
 	}
-	return finish(cls, true)
+	return finish(cls, true), kept
 }
 
 func record(name string, o outcome, sample func() any) {
@@ -809,7 +958,7 @@ func genSevCase(t *rapid.T) *sevCase {
 		if len(base.Measurement) != 0 && c.Launch != 0 && (harmonize || rapid.Bool().Draw(t, "eq:measurement")) {
 			base.Measurement = clone(sev.Measurements[c.Launch])
 		}
-		if m := sev.Measurements[c.Launch]; !harmonize && len(base.Measurement) != 0 && c.Launch != 0 && len(m) > 1 && pct(t, "measshape", 25) {
+		if m := sev.Measurements[c.Launch]; !harmonize && len(base.Measurement) != 0 && c.Launch != 0 && len(m) > 1 && pct(t, "measshape", 45) {
 			// near misses of the endorsed measurement: a strict prefix, a one-bit neighbour, an extension
 			c.MeasShape = rapid.SampledFrom([]string{"prefix47", "bitflip", "extended"}).Draw(t, "measshapekind")
 			switch c.MeasShape {
@@ -864,7 +1013,7 @@ func genSevCase(t *rapid.T) *sevCase {
 	return c
 }
 
-const sevRule = "base check.Policy generated field by field from its descriptor via protoreflect (every scalar/bytes/repeated/message field independently set or unset, lengths and ranges legal for go-sev-guest, 10% with unknown fields, 7% nil base; near-miss shapes: base measurement = first 47 bytes / one-bit neighbour / one-byte extension of the endorsed one, base trusted key lists already containing the bundle's blocks) x endorsement {svn, legal guest policy bits, measurement table over 0-5 VMSA counts incl. odd-length values, family/image id, svsm measurement, CA bundle in {empty, one, two, three CERTIFICATE blocks, wrong PEM type first/second, garbage, one block + garbage tail}, unrelated golden fields} x LaunchVmsas (80% from the table's keys) x Overwrite x AllowUnspecifiedVmsas; 55% of the cases are harmonised (base values compatible with the endorsement) so that the success share stays above one half. Oracle: (1) base proto.Equal to the snapshot taken before the call, result is a different object and scrambling it (bytes flipped in place, list elements replaced, sub-messages rewritten) leaves the base intact; (2) without overwrite each of guest policy / measurement / minimum_guest_svn set in the base equals the result's or an error was returned, a base minimum above the endorsed SVN must fail; (3) on success measurement == measurements[LaunchVmsas] (== base's for 0), guest policy == the endorsement's (with overwrite and a non-zero base: one of the two), trusted id/author keys == base's followed by exactly the DER of block 1 / block 2; (4) all other fields proto.Equal to the base's after clearing the touched ones; (5) an error only when a documented conflict or a malformed input is present (never because of a value conflict under overwrite). non-trivial = non-nil base with >=1 guarded field (policy, measurement, minimum_guest_svn) set; distinct = (set-field mask, outcome class, options)"
+const sevRule = "base check.Policy generated field by field from its descriptor via protoreflect (every scalar/bytes/repeated/message field independently set or unset, lengths and ranges legal for go-sev-guest, 10% with unknown fields, 7% nil base; near-miss shapes: base measurement = first 47 bytes / one-bit neighbour / one-byte extension of the endorsed one, base trusted key lists already containing the bundle's blocks) x endorsement {svn, legal guest policy bits, measurement table over 0-5 VMSA counts incl. odd-length values, family/image id, svsm measurement, CA bundle in {empty, one, two, three CERTIFICATE blocks, wrong PEM type first/second, garbage, one block + garbage tail}, unrelated golden fields} x LaunchVmsas (80% from the table's keys) x Overwrite x AllowUnspecifiedVmsas; 55% of the cases are harmonised (base values compatible with the endorsement) so that the success share stays above one half. Oracle: (1) base proto.Equal to the snapshot taken before the call, result is a different object and scrambling it (bytes flipped in place, list elements replaced, sub-messages rewritten) leaves the base intact; (2) without overwrite each of guest policy / measurement / minimum_guest_svn set in the base equals the result's or an error was returned, a base minimum above the endorsed SVN must fail; (3) on success measurement == measurements[LaunchVmsas] (== base's for 0), guest policy == the endorsement's (with overwrite and a non-zero base: one of the two), trusted id/author keys == the base's keys plus the DER of block 1 / block 2 and nothing else (as a set: order and a skipped duplicate are not judged); (4) every other field - minimum_guest_svn included, with and without overwrite, set or unset - proto.Equal to the base's, and for a nil base to the documented default {guest policy SMT|MigrateMA, minimum_version 0.0}; (5) an error only when a documented conflict or a malformed input is present (never because of a value conflict under overwrite); an endorsement with a measurement that is not 48 bytes long or an empty certificate block may be refused (class err/tolerated); the options struct's Base and Overwrite are unchanged after the call. non-trivial = non-nil base with >=1 guarded field (policy, measurement, minimum_guest_svn) set and an outcome that judges it (success, or an error of the conflict classes); distinct = (set-field mask, outcome class, options)"
 
 func TestSevDerive(t *testing.T) {
 	const name = "sev/derive"
@@ -902,7 +1051,7 @@ func fullSevBase() *cpb.Policy {
 func TestSevMatrix(t *testing.T) {
 	const name = "sev/matrix"
 	const replay = "TestSevMatrix"
-	ev.Rule(name, "enumeration: fully populated base (every check.Policy field set, plus unknown fields) with guest policy in {unset, = endorsement, != endorsement} x measurement in {unset, = measurements[1], = another count's, unrelated, first 47 bytes of measurements[1], one-bit neighbour, measurements[1] + one byte} x minimum_guest_svn in {unset, svn-1, svn, svn+1} x trusted keys {none, some, already containing the bundle's blocks} x Overwrite x launch in {listed, 0+allow, 0 without allow, unlisted} x all 8 CA bundle classes; plus nil base x endorsement policy {default, other}. Same oracle as sev/derive. non-trivial = >=1 guarded field set; distinct = the tuple")
+	ev.Rule(name, "enumeration: fully populated base (every check.Policy field set, plus unknown fields) with guest policy in {unset, = endorsement, != endorsement} x measurement in {unset, = measurements[1], = another count's, unrelated, first 47 bytes of measurements[1], one-bit neighbour, measurements[1] + one byte} x minimum_guest_svn in {unset, svn-1, svn, svn+1} x trusted keys {none, some, already containing the bundle's blocks} x Overwrite x launch in {listed, 0+allow, 0 without allow, unlisted, listed with a zero-length endorsed value} x all 8 CA bundle classes; plus nil base x endorsement policy {default, other}. The bundle classes that are refused outright (three blocks, wrong type, garbage, garbage tail) run with the middle minimum_guest_svn and key variants only. Same oracle as sev/derive. non-trivial = >=1 guarded field set and an outcome that judges it; distinct = the tuple")
 	var rc sevCase
 	if ev.ReplayCase(replay, &rc) {
 		rc.replayName = ""
@@ -919,7 +1068,7 @@ func TestSevMatrix(t *testing.T) {
 		launch uint32
 		allow  bool
 	}
-	launches := []launchOpt{{1, false}, {0, true}, {0, false}, {7, true}}
+	launches := []launchOpt{{1, false}, {0, true}, {0, false}, {7, true}, {2, false}} // 2: listed with an empty value
 	n := 0
 	run := func(c *sevCase, desc string) {
 		c.replayName = replay
@@ -931,15 +1080,28 @@ func TestSevMatrix(t *testing.T) {
 	for _, bundle := range bundleClasses {
 		sev := &epb.VMSevSnp{Svn: svn, Policy: P, Measurements: map[uint32][]byte{1: m1, 4: m4}, FamilyId: expand(5, 16), ImageId: expand(6, 16),
 			CaBundle: buildBundle(bundle, blocks, "PUBLIC KEY", []byte("bad cert"))}
-		golden, _ := proto.Marshal(&epb.VMGoldenMeasurement{SevSnp: sev, Digest: expand(3, 48)})
+		golden48, _ := proto.Marshal(&epb.VMGoldenMeasurement{SevSnp: sev, Digest: expand(3, 48)})
+		sevOdd := proto.Clone(sev).(*epb.VMSevSnp)
+		sevOdd.Measurements[2] = []byte{}
+		goldenOdd, _ := proto.Marshal(&epb.VMGoldenMeasurement{SevSnp: sevOdd, Digest: expand(3, 48)})
 		for _, ow := range []bool{false, true} {
 			for _, l := range launches {
+				golden := golden48
+				if l.launch == 2 { // only these cases see the zero-length value (errors on odd-sized input are not judged)
+					golden, sev = goldenOdd, sevOdd
+				} else {
+					sev = proto.Clone(sevOdd).(*epb.VMSevSnp)
+					delete(sev.Measurements, 2)
+				}
 				for pi, bp := range []uint64{0, P, Pother} {
 					m1bit := clone(m1)
 					m1bit[47] ^= 0x80
 					for mi, bm := range [][]byte{nil, m1, m4, mx, m1[:47], m1bit, append(clone(m1), 0)} {
 						for si, bs := range []uint32{0, svn - 1, svn, svn + 1} {
 							for ki := 0; ki < 3; ki++ {
+								if _, _, strict := expectedKeys(bundle, blocks); !strict && (si != 2 || ki != 1) {
+									continue // refused bundles: every case ends in the same error, one svn/key variant is enough
+								}
 								b := proto.Clone(tmpl).(*cpb.Policy)
 								b.Policy, b.Measurement, b.MinimumGuestSvn = bp, clone(bm), bs
 								switch ki {
@@ -1042,11 +1204,15 @@ type tdxCase struct {
 	Golden           []byte
 	RAMGiB           int
 	Overwrite        bool
+	Entry            string // "" = gcetcbendorsement.TdxPolicy, "cli" = the `tdx policy` command
+	Spell            uint8  // CLI only: flag spelling, see sevCase
+	Step             string // sequence checks: position and base kind of this derivation
 
 	replayName string
 }
 
 func (c *tdxCase) violate(tb ev.TB, key, format string, args ...any) bool {
+	key = entryKey(c.Entry, key)
 	if c.replayName != "" && !ev.IsKnown(key) {
 		ev.SaveReplay("C17", c.replayName, c)
 	}
@@ -1065,7 +1231,14 @@ func (c *tdxCase) describe() string {
 			base += "+any_mr_td=[][]byte{}"
 		}
 	}
-	return fmt.Sprintf("TdxPolicyOptions{RAMGiB:%d Overwrite:%v Base:%s} tdx={%v}", c.RAMGiB, c.Overwrite, base, g.GetTdx())
+	pre := ""
+	if c.Entry == "cli" {
+		pre = "[" + strings.Join(tdxCLIArgs(c), " ") + "] "
+	}
+	if c.Step != "" {
+		pre += "[" + c.Step + "] "
+	}
+	return fmt.Sprintf("%sTdxPolicyOptions{RAMGiB:%d Overwrite:%v Base:%s} tdx={%v}", pre, c.RAMGiB, c.Overwrite, base, g.GetTdx())
 }
 
 func safeTdx(e *epb.VMLaunchEndorsement, o *gcetcbendorsement.TdxPolicyOptions) (res *tcpb.Policy, err error, pan any) {
@@ -1115,12 +1288,7 @@ func normTdx(p *tcpb.Policy) *tcpb.Policy {
 }
 
 func checkTdx(tb ev.TB, c *tdxCase) outcome {
-	golden := &epb.VMGoldenMeasurement{}
-	if err := proto.Unmarshal(c.Golden, golden); err != nil {
-		tb.Fatalf("harness: golden does not unmarshal: %v", err)
-	}
-	tdx := golden.GetTdx()
-	var base, snap *tcpb.Policy
+	var base *tcpb.Policy
 	if !c.BaseNil {
 		base = &tcpb.Policy{}
 		if err := proto.Unmarshal(c.Base, base); err != nil {
@@ -1132,6 +1300,21 @@ func checkTdx(tb ev.TB, c *tdxCase) outcome {
 			}
 			base.TdQuoteBodyPolicy.AnyMrTd = [][]byte{}
 		}
+	}
+	o, _ := judgeTdx(tb, c, base, false)
+	return o
+}
+
+// judgeTdx: see judgeSev.
+func judgeTdx(tb ev.TB, c *tdxCase, base *tcpb.Policy, keep bool) (outcome, *tcpb.Policy) {
+	golden := &epb.VMGoldenMeasurement{}
+	if err := proto.Unmarshal(c.Golden, golden); err != nil {
+		tb.Fatalf("harness: golden does not unmarshal: %v", err)
+	}
+	tdx := golden.GetTdx()
+	baseNil := base == nil
+	var snap *tcpb.Policy
+	if !baseNil {
 		snap = proto.Clone(base).(*tcpb.Policy)
 	}
 	eff := snap
@@ -1139,13 +1322,23 @@ func checkTdx(tb ev.TB, c *tdxCase) outcome {
 		eff = &tcpb.Policy{}
 	}
 	baseAllow := eff.GetTdQuoteBodyPolicy().GetAnyMrTd()
+	emptyNonNil := !baseNil && base.GetTdQuoteBodyPolicy() != nil && base.TdQuoteBodyPolicy.AnyMrTd != nil && len(base.TdQuoteBodyPolicy.AnyMrTd) == 0
 	ow := c.Overwrite
 
-	var rows [][]byte
+	// ram_gib is a uint32 in the endorsement: a requested size below 0 or above 2^32-1 names no row.
+	outOfRange := c.RAMGiB < 0 || uint64(c.RAMGiB) > math.MaxUint32
+	var rows, rows48 [][]byte
 	listed := c.RAMGiB == 0
+	odd := false
 	for _, m := range tdx.GetMeasurements() {
-		if c.RAMGiB == 0 || uint64(m.GetRamGib()) == uint64(c.RAMGiB) {
+		if len(m.GetMrtd()) != 48 {
+			odd = true
+		}
+		if c.RAMGiB == 0 || (!outOfRange && uint64(m.GetRamGib()) == uint64(c.RAMGiB)) {
 			rows = append(rows, m.GetMrtd())
+			if len(m.GetMrtd()) == 48 {
+				rows48 = append(rows48, m.GetMrtd())
+			}
 			listed = true
 		}
 	}
@@ -1153,6 +1346,8 @@ func checkTdx(tb ev.TB, c *tdxCase) outcome {
 	switch {
 	case c.RAMGiB == 0:
 		ramKind = "zero"
+	case outOfRange:
+		ramKind = "out-of-uint32"
 	case !listed:
 		ramKind = "unlisted"
 	}
@@ -1165,7 +1360,7 @@ func checkTdx(tb ev.TB, c *tdxCase) outcome {
 		// nothing endorsed for this RAM size (or no rows at all): whether that is an error or an empty
 		// allow-list is property C02's business; C17 tolerates both and asserts nothing that depends on it
 		other = "no-rows"
-	case !ow && c.EmptyNonNilAllow && !c.BaseNil:
+	case !ow && emptyNonNil:
 		other = "empty-nonnil-allowlist"
 	}
 	out := outcome{nontrivial: len(baseAllow) > 0}
@@ -1175,6 +1370,7 @@ func checkTdx(tb ev.TB, c *tdxCase) outcome {
 	}
 	finish := func(class string, ok bool) outcome {
 		out.class, out.ok = class, ok
+		out.nontrivial = len(baseAllow) > 0 && (ok || class == "err/conflict:allowlist")
 		out.canon = fmt.Sprintf("%s|%s|ow=%v,ram=%s,rows=%d/%d", mask, class, ow, ramKind, len(rows), len(tdx.GetMeasurements()))
 		res := "err"
 		if ok {
@@ -1188,75 +1384,111 @@ func checkTdx(tb ev.TB, c *tdxCase) outcome {
 			}
 			out.extra = append(out.extra, fmt.Sprintf("allowlist=%s/ow=%v:%s", shape, ow, res))
 		}
+		if baseNil {
+			out.extra = append(out.extra, "nilbase:"+res)
+		}
 		return out
 	}
 
-	opts := &gcetcbendorsement.TdxPolicyOptions{Base: base, RAMGiB: c.RAMGiB, Overwrite: ow}
-	end := &epb.VMLaunchEndorsement{SerializedUefiGolden: clone(c.Golden), Signature: []byte("unverified")}
-	res, err, pan := safeTdx(end, opts)
+	var res *tcpb.Policy
+	var err error
+	var pan any
+	if c.Entry == "cli" {
+		res, err, pan = runTdxCLI(tb, c)
+	} else {
+		opts := &gcetcbendorsement.TdxPolicyOptions{Base: base, RAMGiB: c.RAMGiB, Overwrite: ow}
+		before := *opts
+		end := &epb.VMLaunchEndorsement{SerializedUefiGolden: clone(c.Golden), Signature: []byte("unverified")}
+		res, err, pan = safeTdx(end, opts)
+		if pan == nil && (opts.Base != before.Base || opts.Overwrite != before.Overwrite) {
+			c.violate(tb, "C17/tdx-options-changed", "TdxPolicy edited the caller's options: Base %p -> %p, Overwrite %v -> %v", before.Base, opts.Base, before.Overwrite, opts.Overwrite)
+			return finish("known-finding", false), nil
+		}
+		if pan == nil && *opts != before {
+			ev.Note("C17: TdxPolicy edited RAMGiB in the caller's options (not judged: the statement speaks about the base policy and the overwrite permission)")
+		}
+	}
 	if pan != nil {
 		c.violate(tb, "C17/tdx-panic", "TdxPolicy panicked: %v", pan)
-		return finish("known-finding", false)
+		return finish("known-finding", false), nil
 	}
 	// (1)
-	if opts.Base != base || (base != nil && !proto.Equal(base, snap)) {
+	if base != nil && !proto.Equal(base, snap) {
 		c.violate(tb, "C17/tdx-base-mutated", "base policy changed by TdxPolicy (err=%v): fields %s differ from the snapshot taken before the call", err, diffFields(snap.ProtoReflect(), base.ProtoReflect()))
-		return finish("known-finding", false)
+		return finish("known-finding", false), nil
 	}
 	if err != nil {
 		if !conflict && other == "" {
+			if odd {
+				// an MRTD that is not 48 bytes long cannot match any quote; refusing such an endorsement is not judged
+				return finish("err/tolerated:odd-sized-input", false), nil
+			}
 			key := "C17/tdx-spurious-error"
 			if ow {
 				key = "C17/tdx-error-despite-overwrite"
 			}
 			c.violate(tb, key, "TdxPolicy failed although the base has no MRTD allow-list to protect (or overwrite is on) and the endorsement lists MRTDs for the RAM size: %v", err)
-			return finish("known-finding", false)
+			return finish("known-finding", false), nil
 		}
 		if conflict {
-			return finish("err/conflict:allowlist", false)
+			return finish("err/conflict:allowlist", false), nil
 		}
 		if other == "empty-nonnil-allowlist" {
 			ev.Note("C17: TdxPolicy without overwrite refuses a base whose any_mr_td is an empty but non-nil Go slice (an unset field in protobuf terms); harmless for C17 (the derivation fails), not asserted either way")
 		}
-		return finish("err/"+other, false)
+		return finish("err/"+other, false), nil
 	}
 	if res == nil {
 		c.violate(tb, "C17/tdx-nil-result", "TdxPolicy returned neither a policy nor an error")
-		return finish("known-finding", false)
+		return finish("known-finding", false), nil
 	}
 	if base != nil && res == base {
 		c.violate(tb, "C17/tdx-result-is-base", "TdxPolicy returned the caller's base policy object instead of a new policy")
-		return finish("known-finding", false)
+		return finish("known-finding", false), nil
 	}
 	got := res.GetTdQuoteBodyPolicy().GetAnyMrTd()
-	// (2)
-	if !ow && len(baseAllow) > 0 && !bytesListEqual(got, baseAllow) {
-		c.violate(tb, "C17/tdx-allowlist-overwritten", "no overwrite: base any_mr_td %s replaced by %s without an error", hexList(baseAllow), hexList(got))
-		return finish("known-finding", false)
+	switch {
+	case !ow && len(baseAllow) > 0:
+		// (2) the caller's allow-list survived unchanged; whether it also has to equal the endorsed rows is
+		// not something the statement says ("survives unchanged or the derivation fails")
+		if !bytesListEqual(got, baseAllow) {
+			c.violate(tb, "C17/tdx-allowlist-overwritten", "no overwrite: base any_mr_td %s replaced by %s without an error", hexList(baseAllow), hexList(got))
+			return finish("known-finding", false), nil
+		}
+	case listed:
+		// (3) — only for RAM sizes the endorsement lists (or 0 = all): what an unlisted size yields is C02's
+		// business. Rows whose MRTD is not 48 bytes long may be left out.
+		if !sameSet(got, rows) && !(odd && len(rows48) > 0 && sameSet(got, rows48)) {
+			c.violate(tb, "C17/tdx-allowlist-wrong", "any_mr_td = %s, want the endorsement's rows for RAMGiB=%d: %s", hexList(got), c.RAMGiB, hexList(rows))
+			return finish("known-finding", false), nil
+		}
+	case outOfRange:
+		ev.Note("C17: TdxPolicy accepts a RAMGiB outside the uint32 range of ram_gib and (uint32 conversion in TdxPolicy) selects the rows of RAMGiB mod 2^32; which rows a size selects is C02's business, C17 only judges that the base is left alone and everything else is carried over")
 	}
-	// (3) — only for RAM sizes the endorsement lists (or 0 = all): what an unlisted size yields is C02's business
-	if listed && !sameSet(got, rows) {
-		c.violate(tb, "C17/tdx-allowlist-wrong", "any_mr_td = %s, want the endorsement's rows for RAMGiB=%d: %s", hexList(got), c.RAMGiB, hexList(rows))
-		return finish("known-finding", false)
-	}
-	// (4)
-	if !c.BaseNil {
+	// (4) everything else is carried over (nil base: the result holds nothing but the allow-list)
+	{
 		a, b := normTdx(res), normTdx(eff)
 		if !proto.Equal(a, b) {
 			d := diffFields(b.ProtoReflect(), a.ProtoReflect())
 			if a.TdQuoteBodyPolicy != nil && b.TdQuoteBodyPolicy != nil {
 				d += " / td_quote_body_policy: " + diffFields(b.TdQuoteBodyPolicy.ProtoReflect(), a.TdQuoteBodyPolicy.ProtoReflect())
 			}
-			c.violate(tb, "C17/tdx-unrelated-field-changed", "fields unrelated to the endorsement differ between base and result: %s", d)
-			return finish("known-finding", false)
+			if baseNil {
+				c.violate(tb, "C17/tdx-nilbase-default-differs", "no base policy: the result carries more than the MRTD allow-list: %s", d)
+			} else {
+				c.violate(tb, "C17/tdx-unrelated-field-changed", "fields unrelated to the endorsement differ between base and result: %s", d)
+			}
+			return finish("known-finding", false), nil
 		}
 	}
 	// (1b)
-	if base != nil {
+	kept := res
+	if base != nil && !keep && c.Entry != "cli" {
+		kept = nil
 		scramble(res.ProtoReflect())
 		if !proto.Equal(base, snap) {
 			c.violate(tb, "C17/tdx-result-aliases-base", "mutating the returned policy changed the caller's base policy (fields %s): the result shares memory with the base", diffFields(snap.ProtoReflect(), base.ProtoReflect()))
-			return finish("known-finding", false)
+			return finish("known-finding", false), nil
 		}
 	}
 	cls := "ok/noow"
@@ -1264,14 +1496,16 @@ func checkTdx(tb ev.TB, c *tdxCase) outcome {
 		cls = "ok/ow"
 	}
 	switch {
-	case c.BaseNil:
+	case baseNil:
 		cls += "/nilbase"
+	case len(baseAllow) > 0 && !ow:
+		cls += "/kept-allowlist"
 	case len(baseAllow) > 0:
 		cls += "/replaced-allowlist"
 	default:
 		cls += "/fresh-allowlist"
 	}
-	return finish(cls, true)
+	return finish(cls, true), kept
 }
 
 var ramPool = []uint32{1, 2, 4, 8, 16, 32, 64, 128, 256, 512, 1024, 3, 0, math.MaxUint32}
@@ -1311,10 +1545,18 @@ func genTdxCase(t *rapid.T) *tdxCase {
 	switch {
 	case rr < 20 || (nrows == 0 && rr < 94):
 		c.RAMGiB = 0
-	case rr < 94:
+	case rr < 92:
 		c.RAMGiB = int(tdx.Measurements[rapid.IntRange(0, nrows-1).Draw(t, "ramidx")].RamGib)
-	default:
+	case rr < 96 || strconv.IntSize < 64:
 		c.RAMGiB = int(rapid.SampledFrom(append([]uint32{5, 6, 48}, ramPool...)).Draw(t, "ramany"))
+	default:
+		// sizes that no uint32 ram_gib can equal: negative, 2^32 and above, and values congruent to a
+		// listed size modulo 2^32
+		var listedSize int64 = 4
+		if nrows > 0 {
+			listedSize = int64(tdx.Measurements[rapid.IntRange(0, nrows-1).Draw(t, "ramidx")].RamGib)
+		}
+		c.RAMGiB = int(rapid.SampledFrom([]int64{-1, -4, -listedSize - 1, 1 << 32, 1<<32 + listedSize, 3<<32 + listedSize, listedSize - 1<<32, math.MaxInt64, math.MinInt64}).Draw(t, "ramout"))
 	}
 	c.Overwrite = rapid.Bool().Draw(t, "overwrite")
 	if pct(t, "nilbase", 8) {
@@ -1348,7 +1590,16 @@ func genTdxCase(t *rapid.T) *tdxCase {
 			shape := listShapes[rapid.IntRange(0, len(listShapes)-1).Draw(t, "allowshape")]
 			sel := rapid.Uint64().Draw(t, "allowsel")
 			l := deriveList(shape, rows, sel)
-			if l == nil { // rows too short for the shape
+			if l == nil && c.RAMGiB != 0 && nrows >= 2 { // rows too short for the shape: ask for all sizes
+				var all [][]byte
+				for _, m := range tdx.Measurements {
+					all = append(all, m.Mrtd)
+				}
+				if l = deriveList(shape, all, sel); l != nil {
+					c.RAMGiB, rows = 0, all
+				}
+			}
+			if l == nil { // still too short
 				shape = "equal"
 				l = deriveList(shape, rows, sel)
 			}
@@ -1381,7 +1632,7 @@ func genTdxCase(t *rapid.T) *tdxCase {
 	return c
 }
 
-const tdxRule = "base checkconfig.Policy generated field by field from its descriptor (header_policy and td_quote_body_policy independently absent / present, every inner scalar/bytes/repeated field independently set or unset with go-tdx-guest-legal lengths; 75% of the set allow-lists derived from the endorsement's rows for the RAM size {equal, strict prefix, strict suffix, non-contiguous subset, superset, reordered, one-bit neighbour}; 10% unknown fields; 8% nil base; 4% empty-but-non-nil any_mr_td) x endorsement tdx rows (0-6 rows, repeated RAM sizes with both early_accept values, rare empty MRTD, 4% no tdx) x RAMGiB {0, a listed size, 6% unlisted} x Overwrite. Oracle: (1) base proto.Equal to the snapshot, result a different object, scrambling the result leaves the base intact; (2) without overwrite a non-empty base any_mr_td equals the result's or an error was returned; (3) for RAMGiB 0 or a listed size any_mr_td == the endorsement's MRTDs for that size (as a set; nothing asserted for unlisted sizes: C02); (4) every other field (header policy, the other quote-body fields, unknown fields) proto.Equal to the base's, where an absent quote body equals a present empty one; (5) an error only when the base carries an allow-list without overwrite, the endorsement has no tdx, or it lists no row for the RAM size (tolerated, not demanded). non-trivial = base any_mr_td non-empty; distinct = (set-field mask, outcome class, options, rows selected/total)"
+const tdxRule = "base checkconfig.Policy generated field by field from its descriptor (header_policy and td_quote_body_policy independently absent / present, every inner scalar/bytes/repeated field independently set or unset with go-tdx-guest-legal lengths; 75% of the set allow-lists derived from the endorsement's rows for the RAM size {equal, strict prefix, strict suffix, non-contiguous subset, superset, reordered, one-bit neighbour}; 10% unknown fields; 8% nil base; 4% empty-but-non-nil any_mr_td) x endorsement tdx rows (0-6 rows, repeated RAM sizes with both early_accept values, rare empty MRTD, 4% no tdx) x RAMGiB {0, a listed size, 4% unlisted, 4% outside the uint32 range of ram_gib: negative, >= 2^32, congruent to a listed size modulo 2^32} x Overwrite. Oracle: (1) base proto.Equal to the snapshot, result a different object, scrambling the result leaves the base intact; (2) without overwrite a non-empty base any_mr_td equals the result's or an error was returned; (3) otherwise, for RAMGiB 0 or a listed size any_mr_td == the endorsement's MRTDs for that size (as a set, rows whose MRTD is not 48 bytes may be left out; nothing asserted for unlisted sizes and sizes outside uint32: C02); (4) every other field (header policy, the other quote-body fields, unknown fields) proto.Equal to the base's - for a nil base the result holds nothing but the allow-list -, where an absent quote body equals a present empty one; (5) an error only when the base carries an allow-list without overwrite, the endorsement has no tdx, it lists no row for the RAM size (tolerated, not demanded), or it holds an MRTD that is not 48 bytes long (tolerated); the options struct's Base and Overwrite are unchanged after the call. non-trivial = base any_mr_td non-empty and an outcome that judges it (success, or the allow-list conflict error); distinct = (set-field mask, outcome class, options, rows selected/total)"
 
 func TestTdxDerive(t *testing.T) {
 	const name = "tdx/derive"
@@ -1407,6 +1658,17 @@ func TestTdxDerive(t *testing.T) {
 	}
 }
 
+// tdxMatrixRAM: no size, three sizes the row sets use, and (64-bit int) two sizes outside uint32 of
+// which one is congruent to a listed size modulo 2^32.
+func tdxMatrixRAM() []int {
+	l := []int{0, 4, 8, 16}
+	if strconv.IntSize == 64 {
+		big := int64(1)<<32 + 4
+		l = append(l, int(big), -4)
+	}
+	return l
+}
+
 func fullTdxBase() *tcpb.Policy {
 	n := uint64(23)
 	p := &tcpb.Policy{}
@@ -1418,7 +1680,7 @@ func fullTdxBase() *tcpb.Policy {
 func TestTdxMatrix(t *testing.T) {
 	const name = "tdx/matrix"
 	const replay = "TestTdxMatrix"
-	ev.Rule(name, "enumeration: base in {nil, empty, header only, full body without allow-list, full with allow-list == endorsement rows, full with another allow-list, full with single-entry list, body with empty non-nil allow-list, and allow-lists derived from the endorsement's rows for the RAM size: strict prefixes, strict suffixes, non-contiguous subsets, supersets (extra entry first / inside / last), rotations, one-bit neighbours — each on a fully populated base and on a bare quote body} x Overwrite x endorsement rows {no tdx, no rows, one size, three rows over two sizes incl. both early_accept variants, five rows over three sizes} x RAMGiB {0, 4, 8, 16} (shapes that need more rows than the size has are skipped). Same oracle as tdx/derive. non-trivial = base allow-list non-empty; distinct = the tuple")
+	ev.Rule(name, "enumeration: base in {nil, empty, header only, full body without allow-list, full with allow-list == endorsement rows, full with another allow-list, full with single-entry list, body with empty non-nil allow-list, and allow-lists derived from the endorsement's rows for the RAM size: strict prefixes, strict suffixes, non-contiguous subsets, supersets (extra entry first / inside / last), rotations, one-bit neighbours — each on a fully populated base and on a bare quote body} x Overwrite x endorsement rows {no tdx, no rows, one size, three rows over two sizes incl. both early_accept variants, five rows over three sizes} x RAMGiB {0, 4, 8, 16, 2^32+4, -4} (shapes that need more rows than the size has are skipped). Same oracle as tdx/derive. non-trivial = base allow-list non-empty and an outcome that judges it; distinct = the tuple")
 	var rc tdxCase
 	if ev.ReplayCase(replay, &rc) {
 		rc.replayName = ""
@@ -1446,10 +1708,10 @@ func TestTdxMatrix(t *testing.T) {
 	n := 0
 	for _, rs := range rowsets {
 		golden, _ := proto.Marshal(&epb.VMGoldenMeasurement{Tdx: rs.tdx, Digest: expand(3, 48)})
-		for _, ram := range []int{0, 4, 8, 16} {
+		for _, ram := range tdxMatrixRAM() {
 			var exp [][]byte
 			for _, m := range rs.tdx.GetMeasurements() {
-				if ram == 0 || int(m.RamGib) == ram {
+				if ram == 0 || int64(m.RamGib) == int64(ram) {
 					exp = append(exp, clone(m.Mrtd))
 				}
 			}
